@@ -138,6 +138,7 @@ def _build_universe_deck(rng, depth=None, macro_p=0.15, tr_p=0.1, fill_tr_p=0.6,
         return u
 
     universes = []
+    first_fill = {}  # universe -> (first container with a FILL transformation, class of the rotation)
     by_trcl = {}     # universe -> True: every container of it has no FILL transformation and is placed by its own TRCL
 
     def make_filled(c, level):
@@ -154,6 +155,18 @@ def _build_universe_deck(rng, depth=None, macro_p=0.15, tr_p=0.1, fill_tr_p=0.6,
         p_ft, p_tc = (0.0, 0.75) if by_trcl[u] else (fill_tr_p, trcl_p)
         c.mat, c.rho = 0, None
         c.fill = {'u': u, 'tr': None}
+        prev = first_fill.get(u)
+        if prev is not None and prev[0].fill.get('tr') is not None and not by_trcl[u] and rng.random() < 0.6:
+            # the same universe placed twice by transformations that differ in one displacement only, by the pair
+            # -1 / -2 (two neighbouring positions of a rack): equal for anything that compares them through hash()
+            m0, cls0 = prev[0].fill['tr'], prev[1]
+            k = rng.randrange(3)
+            m0.o[k] = -1.0
+            m = D.Motion(list(m0.o), list(m0.b))
+            m.o[k] = -2.0
+            c.fill['tr'] = m
+            _spell_motion(d, rng, m, cls0, c, 'fill')
+            return
         if rng.random() < p_ft:
             m, cls = G.random_motion(rng, rng.choice(rot_classes) if rot_classes else ('mirror' if rng.random() < 0.1 else None))
             if rng.random() < 0.12:
@@ -161,6 +174,7 @@ def _build_universe_deck(rng, depth=None, macro_p=0.15, tr_p=0.1, fill_tr_p=0.6,
                 m, cls = D.Motion([0.0, 0.0, 0.0], list(D.IDENT)), 'id'
             c.fill['tr'] = m
             _spell_motion(d, rng, m, cls, c, 'fill')
+            first_fill.setdefault(u, (c, cls))
         if rng.random() < p_tc:
             m, cls = G.random_motion(rng, rng.choice(rot_classes) if rot_classes else ('mirror' if rng.random() < 0.1 else None))
             c.trcl = m
